@@ -7,8 +7,18 @@
    sets and re-synchronised from them, and the invariant is evaluated on
    the observed state after every step.                                    *)
 EXTENDS Locks, TraceBase
-VARIABLES st, l, viol
-tvars == <<st, l, viol>>
+VARIABLES st, pos, l, viol
+tvars == <<st, pos, l, viol>>
+
+(* GET #n / PUT #n without a record number (logged with rec = 0) address "the next record": the one after the last record
+   read or written through that number, record 1 after OPEN.  pos[n] is that record number, 0 when the trace does not
+   determine it (after a refused access, whose effect on the position the property leaves open).  The demanded outcome of
+   an implicit access is the one of the explicit access to record pos[n].                                              *)
+Eff(e, p) == IF e.op \in {"get", "put"} /\ e.rec = 0 THEN [e EXCEPT !.rec = p[e.n]] ELSE e
+NextPos(e, p) ==
+    CASE e.op = "open" /\ e.ok -> [p EXCEPT ![e.n] = 1]
+      [] e.op \in {"get", "put"} -> [p EXCEPT ![e.n] = IF e.ok /\ Eff(e, p).rec # 0 THEN Eff(e, p).rec + 1 ELSE 0]
+      [] OTHER -> p
 
 SeqToSet(s) == {s[i] : i \in 1..Len(s)}
 ObsSt(e) == [mode  |-> [n \in FileNums |-> e.obs.mode[n]],
@@ -22,8 +32,10 @@ Clause(a) == CASE a.op = "open" -> "open_while_output_or_append_open"
 
 Step(e) ==
     LET s0   == IF Has(e, "reset") /\ e.reset THEN InitSt ELSE st
-        must == Must(s0, e)
-        s1   == IF e.ok THEN Effect(s0, e) ELSE s0
+        p0   == IF Has(e, "reset") /\ e.reset THEN [n \in FileNums |-> 0] ELSE pos
+        a    == Eff(e, p0)
+        must == IF a.op \in {"get", "put"} /\ a.rec = 0 THEN "any" ELSE Must(s0, a)
+        s1   == IF e.ok THEN Effect(s0, a) ELSE s0
         obs  == ObsSt(e)
         v    == IF ~Accepts(must, e.ok, e.code) THEN Clause(e)
                 ELSE IF obs.mode # s1.mode THEN "open_files_differ_from_model"
@@ -31,9 +43,10 @@ Step(e) ==
                 ELSE IF ~NoOverlapSt(obs) THEN "overlapping_ranges_held"
                 ELSE "ok"
     IN  /\ st' = obs
+        /\ pos' = NextPos(e, p0)
         /\ viol' = IF v = "ok" THEN viol ELSE Append(viol, <<l, v>>)
 
-TInit == st = InitSt /\ l = 1 /\ viol = <<>>
+TInit == st = InitSt /\ pos = [n \in FileNums |-> 0] /\ l = 1 /\ viol = <<>>
 TNext == l <= NEvents /\ l' = l + 1 /\ Step(Events[l])
 TSpec == TInit /\ [][TNext]_tvars
 TDone == (l = NEvents + 1) => WriteVerdict(l - 1, viol)
